@@ -367,6 +367,8 @@ def common_config(draw, L, R, score=None):
         "prefix": draw(st.sampled_from(PREFIXES)),
         "out_sim_score": draw(st.booleans()) if score is None else score,
         "n_jobs": draw(n_jobs_value(canon.table_len(R))),
+        # the progress bar is on by default in the library: exercise that path too
+        "show_progress": draw(st.integers(0, 3)) == 0,
     }
 
 
